@@ -3,20 +3,38 @@
 Correspondence: real `gridforce.compute_w(pn, pm, u, v, z_w, z_r)` on synthetic grids against the
 cell-by-cell Lean model (bit-exact: same operation order).  Oracle on the implementation: linearity,
 zero lateral boundary, flat-bottom identity, zero at bed and surface, zero for non-divergent transports,
-positive under surface convergence; `Forcing.compute_w` on the shipped chemicals forcing file."""
-import importlib
+positive under surface convergence; `Forcing.compute_w` / `Forcing.W` / `Forcing.wvel` on synthetic ROMS
+files (sub-grids, land, anisotropic cells, start on / between frames, updates across frames) and on the
+shipped chemicals forcing file."""
+import importlib, os, tempfile, shutil
 import numpy as np
 from .common import Driver, F, I, unF, same_bits
 
-RULE = ("grids J,I in 4..7, K in 3..6, random monotone stretchings, uniform or varying positive pm/pn, flat and rough "
-        "bathymetry, random velocity fields, analytic non-divergent transports and surface-convergent columns. "
-        "Non-trivial: every grid/field pair.")
-ASSUMPTIONS = ["linearity / identities compared with 1e-9 relative tolerance to the field scale; model vs implementation bit-exact"]
+RULE = ("grids J,I in 4..7, K in 3..6 (one in eight: J,I in 8..12, K in 7..12; a few oracle-only grids up to 24x24x35), random monotone "
+        "stretchings, uniform or varying positive pm/pn, flat and rough bathymetry, random velocity fields, analytic non-divergent "
+        "transports and surface-convergent columns.  Level styles: pure sigma with the surface at 0 (as before); the same with a "
+        "non-zero free-surface offset (constant over a flat bottom, per column over a rough one); flat bed with horizontally uniform "
+        "rho-levels but horizontally varying interior w-levels and surface (horizontally varying layer thicknesses); ROMS-type "
+        "z = hc*(s-C) + C*H over rough bathymetry (levels not proportional to the depth).  Every case also as float32 non-contiguous "
+        "views and as frame 0/1 of a two-frame call with different levels per frame.  Forcing: synthetic float64 ROMS files "
+        "(7..11 x 7..10 x 3..6, pm != pn, land cells, flat or rough, whole grid or sub-grid with i0,j0 >= 1), start on a frame / on a "
+        "later frame / between frames, dt-aligned frames, consecutive and gapped update schedules across >= 2 frames; the shipped file "
+        "at steps 0..4, 60, 61, 120.  Non-trivial: every grid/field pair and every (file, schedule) pair.")
+ASSUMPTIONS = ["linearity / identities compared with 1e-9 relative tolerance to the field scale; model vs implementation bit-exact",
+               "Forcing.W against compute_w of the served currents: 1e-9 relative on float64 files (accumulated increments vs the closed "
+               "form, equal by linearity), 1e-5 relative on the shipped file (float32 currents accumulate one float32 rounding per step)",
+               "the two-frame, float32 / non-contiguous and large-grid calls are judged by the implementation-side oracles only "
+               "(the model driver has no operation for them)"]
 SITE = "ladim_plugins/chemicals/gridforce.py::compute_w"
+SITE_F = "ladim_plugins/chemicals/gridforce.py::Forcing.compute_w"
+SITE_W = "ladim_plugins/chemicals/gridforce.py::Forcing.wvel"
 
 
-def make_grid(rng, flat):
-    J = rng.randrange(4, 8); I_ = rng.randrange(4, 8); K = rng.randrange(3, 7)
+def make_grid(rng, flat, dims=None):
+    if dims is None:
+        J = rng.randrange(4, 8); I_ = rng.randrange(4, 8); K = rng.randrange(3, 7)
+    else:
+        J, I_, K = dims
     if rng.random() < 0.5:
         pm = np.full((J, I_), 1.0 / rng.choice([160.0, 800.0])); pn = np.full((J, I_), 1.0 / rng.choice([160.0, 800.0]))
     else:
@@ -32,6 +50,43 @@ def make_grid(rng, flat):
     return J, I_, K, pm, pn, z_w, z_r
 
 
+def restyle(rng, flat, J, I_, K, z_w, z_r):
+    """Other valid level sets on the same grid (the statement: any monotone stretching, any layer thicknesses; flat
+    bottom for the exact identities).  Returns (style, z_w, z_r); 'sigma' leaves the levels of make_grid as they are."""
+    r = rng.random()
+    if r < 0.4:
+        return "sigma_surface0", z_w, z_r
+    if r < 0.6:
+        # free surface not at z = 0: constant over a flat bottom (levels stay horizontally uniform), per column otherwise
+        if flat:
+            c = rng.choice([-1.0, 1.0]) * rng.uniform(0.2, 3.0)
+            return "zeta_offset", z_w + c, z_r + c
+        c = np.array([[rng.uniform(-2.0, 2.0) for _ in range(I_)] for _ in range(J)])
+        return "zeta_offset", z_w + c[None], z_r + c[None]
+    if flat:
+        # flat bed, horizontally uniform rho-levels (no s-surface slope), but the interior w-levels and the surface vary
+        # from column to column: horizontally varying layer thicknesses over a flat bottom
+        zr1 = z_r[:, 0, 0]
+        zw = np.empty_like(z_w)
+        zw[0] = z_w[0]
+        for k in range(1, K):
+            f = np.array([[rng.uniform(0.1, 0.9) for _ in range(I_)] for _ in range(J)])
+            zw[k] = zr1[k - 1] + (zr1[k] - zr1[k - 1]) * f
+        f = np.array([[rng.uniform(0.3, 1.7) for _ in range(I_)] for _ in range(J)])
+        zw[K] = zr1[K - 1] + (0.0 - zr1[K - 1]) * f          # zr1[K-1] < 0: surface above the top rho-level, above or below z = 0
+        return "flat_varying_layers", zw, z_r.copy()
+    # ROMS-type transform (Song & Haidvogel): z = hc*(s - C(s)) + C(s)*H, C = -|s|^p: monotone in s for H > hc
+    H = -z_w[0]
+    hc = rng.choice([5.0, 10.0, 15.0]); p = rng.uniform(1.3, 3.0)
+    H = np.maximum(H, hc + 5.0)
+    sw = np.sort(np.array([-1.0, 0.0] + [-rng.random() for _ in range(K - 1)]))
+    sr = sw[:-1] + (sw[1:] - sw[:-1]) * np.array([rng.uniform(0.2, 0.8) for _ in range(K)])
+    Cw = -np.abs(sw) ** p; Cr = -np.abs(sr) ** p
+    zw = hc * (sw - Cw)[:, None, None] + Cw[:, None, None] * H[None]
+    zr = hc * (sr - Cr)[:, None, None] + Cr[:, None, None] * H[None]
+    return "roms_stretching", zw, zr
+
+
 def rand_uv(rng, K, J, I_):
     u = np.array([[[rng.uniform(-1, 1) for _ in range(I_ - 1)] for _ in range(J)] for _ in range(K)])
     v = np.array([[[rng.uniform(-1, 1) for _ in range(I_)] for _ in range(J - 1)] for _ in range(K)])
@@ -42,6 +97,252 @@ def call(G, pn, pm, u, v, z_w, z_r):
     return G.compute_w(pn, pm, u[None], v[None], z_w[None], z_r[None])[0]
 
 
+def check_case(ctx, G, drv, pend, c, dims=None, use_driver=True, np_fields=False):
+    flat = ctx.rng.random() < 0.6
+    J, I_, K, pm, pn, z_w, z_r = make_grid(ctx.rng, flat, dims)
+    style, z_w, z_r = restyle(ctx.rng, flat, J, I_, K, z_w, z_r)
+    if np_fields:
+        R = np.random.RandomState(ctx.sub_seed())
+        draw_uv = lambda: (R.uniform(-1, 1, (K, J, I_ - 1)), R.uniform(-1, 1, (K, J - 1, I_)))
+    else:
+        draw_uv = lambda: rand_uv(ctx.rng, K, J, I_)
+    u, v = draw_uv()
+    cs = dict(J=J, I=I_, K=K, flat=flat, style=style, pm=pm, pn=pn, z_w=z_w, z_r=z_r, u=u, v=v)
+    ctx.case(key=(J, I_, K, flat, float(u.sum()), float(pm.sum())), nontrivial=True, sample=dict(J=J, I=I_, K=K, flat=flat, style=style) if c < 3 else None)
+    ctx.branch("flat" if flat else "rough"); ctx.size("K", K); ctx.branch("levels." + style)
+    ctx.branch("size.small" if max(J, I_) <= 7 and K <= 6 else ("size.medium" if max(J, I_) <= 12 else "size.large"))
+    keep = [a.copy() for a in (pn, pm, u, v, z_w, z_r)]
+    try:
+        w = call(G, pn, pm, u, v, z_w, z_r)
+    except Exception as e:
+        ctx.oracle(False, "C14.compute_w.raises", SITE, "raised %r" % (e,), dict(J=J, I=I_, K=K, style=style)); return
+    scale = np.abs(w).max() + 1e-30
+    ctx.oracle(w.shape == (K + 1, J, I_), "C14.shape", SITE, "shape %r" % (w.shape,), dict(J=J, I=I_, K=K))
+    # lateral boundary
+    lat = np.abs(w[:, 0, :]).max() + np.abs(w[:, -1, :]).max() + np.abs(w[:, :, 0]).max() + np.abs(w[:, :, -1]).max()
+    ctx.oracle(lat == 0, "C14.lateral_not_zero", SITE, "lateral boundary values %r" % lat, cs)
+    # linearity
+    u2, v2 = draw_uv()
+    a, b = ctx.rng.uniform(-2, 2), ctx.rng.uniform(-2, 2)
+    w2 = call(G, pn, pm, u2, v2, z_w, z_r)
+    wc = call(G, pn, pm, a * u + b * u2, a * v + b * v2, z_w, z_r)
+    err = np.abs(wc - (a * w + b * w2)).max()
+    ctx.oracle(err <= 1e-9 * (np.abs(wc).max() + scale), "C14.not_linear", SITE, "linearity error %r (scale %r)" % (err, scale), cs)
+    if flat:
+        ctx.oracle(np.abs(w[0]).max() <= 1e-12 * scale and np.abs(w[-1]).max() <= 1e-9 * scale, "C14.bed_surface_not_zero", SITE,
+                   "bed %r surface %r (scale %r)" % (np.abs(w[0]).max(), np.abs(w[-1]).max(), scale), cs)
+        # flat-bottom identity with independently computed transports
+        Hz = z_w[1:] - z_w[:-1]
+        Hzu = 0.5 * (Hz[:, :, :-1] + Hz[:, :, 1:]); Hzv = 0.5 * (Hz[:, :-1, :] + Hz[:, 1:, :])
+        Fu = Hzu * u * 2 / (pn[:, :-1] + pn[:, 1:]); Fv = Hzv * v * 2 / (pm[:-1, :] + pm[1:, :])
+        D = (Fu[:, 1:-1, 1:] - Fu[:, 1:-1, :-1]) + (Fv[:, 1:, 1:-1] - Fv[:, :-1, 1:-1])      # net outflow per layer, interior cells
+        S = np.concatenate([np.zeros((1,) + D.shape[1:]), np.cumsum(D, axis=0)])
+        zz = z_w[:, 1:-1, 1:-1]
+        want = (pm * pn)[1:-1, 1:-1] * (S - (zz - zz[0]) / (zz[-1] - zz[0]) * S[-1])
+        err = np.abs(w[:, 1:-1, 1:-1] - want).max()
+        ctx.oracle(err <= 1e-9 * scale, "C14.flat_identity", SITE, "identity error %r (scale %r)" % (err, scale), cs)
+        # non-divergent transports: stream function psi at corners -> Fu = d psi/dy, Fv = -d psi/dx
+        if np_fields:
+            psi = R.uniform(-1, 1, (K, J + 1, I_ + 1))
+        else:
+            psi = np.array([[[ctx.rng.uniform(-1, 1) for _ in range(I_ + 1)] for _ in range(J + 1)] for _ in range(K)])
+        Fu_nd = psi[:, 1:, 1:-1] - psi[:, :-1, 1:-1]          # faces between (j,i),(j,i+1): shape K,J,I-1
+        Fv_nd = -(psi[:, 1:-1, 1:] - psi[:, 1:-1, :-1])       # shape K,J-1,I
+        und = Fu_nd / (Hzu * 2 / (pn[:, :-1] + pn[:, 1:])); vnd = Fv_nd / (Hzv * 2 / (pm[:-1, :] + pm[1:, :]))
+        wnd = call(G, pn, pm, und, vnd, z_w, z_r)
+        sc = (np.abs(Fu_nd).max() + np.abs(Fv_nd).max()) * (pm * pn).max()
+        ctx.oracle(np.abs(wnd).max() <= 1e-9 * sc, "C14.nondivergent_not_zero", SITE,
+                   "|w| = %r for a non-divergent transport field (transport scale %r)" % (np.abs(wnd).max(), sc), cs)
+        ctx.branch("nondivergent")
+        # surface convergence: outflow in the lower half, equal inflow in the upper half of one interior column
+        uc = np.zeros_like(u); vc = np.zeros_like(v)
+        jj, ii = J // 2, I_ // 2
+        half = K // 2
+        for k in range(K):
+            sgn = 1.0 if k < half else -1.0 * half / (K - half)
+            # east face of cell (jj,ii) carries the outflow / inflow
+            uc[k, jj, ii] = sgn / (Hzu[k, jj, ii] * 2 / (pn[jj, ii] + pn[jj, ii + 1]))
+        wcv = call(G, pn, pm, uc, vc, z_w, z_r)
+        ctx.oracle(np.all(wcv[1:K, jj, ii] > 0), "C14.surface_convergence_not_downward", SITE,
+                   "w in the column with divergence below / convergence above: %r" % wcv[:, jj, ii].tolist(), cs)
+        ctx.branch("surface_convergence")
+        # the same over all four faces of a random interior column, random split level and random positive outflows below /
+        # inflows above it with zero column total (partial sums from the bed positive => w > 0 at every interior level)
+        jj = ctx.rng.randrange(1, J - 1); ii = ctx.rng.randrange(1, I_ - 1)
+        half = ctx.rng.randrange(1, K)
+        out_ = np.array([ctx.rng.uniform(0.2, 1.0) for _ in range(K)])
+        out_[half:] *= -out_[:half].sum() / out_[half:].sum()
+        uc = np.zeros_like(u); vc = np.zeros_like(v)
+        for k in range(K):
+            sh = np.array([ctx.rng.uniform(0.1, 1.0) for _ in range(4)]); sh = sh / sh.sum() * out_[k]   # E, W, N, S shares of the outflow
+            uc[k, jj, ii] = sh[0] / (Hzu[k, jj, ii] * 2 / (pn[jj, ii] + pn[jj, ii + 1]))
+            uc[k, jj, ii - 1] = -sh[1] / (Hzu[k, jj, ii - 1] * 2 / (pn[jj, ii - 1] + pn[jj, ii]))
+            vc[k, jj, ii] = sh[2] / (Hzv[k, jj, ii] * 2 / (pm[jj, ii] + pm[jj + 1, ii]))
+            vc[k, jj - 1, ii] = -sh[3] / (Hzv[k, jj - 1, ii] * 2 / (pm[jj - 1, ii] + pm[jj, ii]))
+        wcv = call(G, pn, pm, uc, vc, z_w, z_r)
+        ctx.oracle(np.all(wcv[1:K, jj, ii] > 0), "C14.surface_convergence_not_downward", SITE,
+                   "w in column (%d,%d), outflow over four faces below level %d and inflow above: %r" % (jj, ii, half, wcv[:, jj, ii].tolist()),
+                   dict(cs, uc=uc, vc=vc))
+        ctx.branch("surface_convergence.four_faces")
+    # --- the same field given as float32, non-contiguous views (how Forcing passes U[..., 1:-1], V[:, 1:-1, :]): w is a
+    # (linear) function of the field *values*, so it must agree with the float64 contiguous call on the same values.
+    # Tolerance as for linearity (float32 -> float64 conversion is exact; a float32 accumulation would give ~1e-7).
+    Ub = np.zeros((K, J, I_ + 1), dtype="f4"); Vb = np.zeros((K, J + 1, I_), dtype="f4")
+    Ub[:, :, 1:-1] = u; Vb[:, 1:-1, :] = v
+    Ub[:, :, 0] = 7.0; Ub[:, :, -1] = -7.0; Vb[:, 0, :] = 7.0; Vb[:, -1, :] = -7.0         # outer faces, not part of the field
+    uv_, vv_ = Ub[:, :, 1:-1], Vb[:, 1:-1, :]
+    w32 = call(G, pn, pm, uv_, vv_, z_w, z_r)
+    w64 = call(G, pn, pm, np.ascontiguousarray(uv_, dtype="f8"), np.ascontiguousarray(vv_, dtype="f8"), z_w, z_r)
+    err = np.abs(w32 - w64).max()
+    ctx.oracle(w32.shape == w64.shape and err <= 1e-9 * (np.abs(w64).max() + 1e-30), "C14.not_linear.float32_view", SITE,
+               "float32 non-contiguous field vs the same values as float64: difference %r (scale %r)" % (err, np.abs(w64).max()), cs)
+    ctx.branch("float32_view")
+    # --- two frames in one call (leading time axis), different currents and different levels per frame: every frame is a
+    # grid/field pair of its own, so frame t must be the w of that frame's grid and field (tolerance as for linearity)
+    _, _, _, _, _, z_wb, z_rb = make_grid(ctx.rng, flat, (J, I_, K))
+    _, z_wb, z_rb = restyle(ctx.rng, flat, J, I_, K, z_wb, z_rb)
+    wb = call(G, pn, pm, u2, v2, z_wb, z_rb)
+    try:
+        w_2f = G.compute_w(pn, pm, np.stack([u, u2]), np.stack([v, v2]), np.stack([z_w, z_wb]), np.stack([z_r, z_rb]))
+        e0 = np.abs(w_2f[0] - w).max(); e1 = np.abs(w_2f[1] - wb).max()
+        ctx.oracle(w_2f.shape == (2, K + 1, J, I_) and e0 <= 1e-9 * scale and e1 <= 1e-9 * (np.abs(wb).max() + 1e-30), "C14.frame_mixed", SITE,
+                   "two-frame call: frame 0 differs by %r, frame 1 by %r from the single-frame results" % (e0, e1),
+                   dict(cs, u2=u2, v2=v2, z_w2=z_wb, z_r2=z_rb))
+    except Exception as e:
+        ctx.oracle(False, "C14.compute_w.raises", SITE, "two-frame call raised %r" % (e,), dict(J=J, I=I_, K=K, style=style))
+    ctx.branch("two_frames")
+    # --- the caller's arrays (currents, metrics, levels) are inputs only
+    same = all(np.array_equal(x, y) for x, y in zip(keep, (pn, pm, u, v, z_w, z_r)))
+    ctx.oracle(same, "C14.inputs_modified", SITE, "compute_w changed one of its input arrays", dict(J=J, I=I_, K=K, style=style))
+    if drv.available and use_driver:
+        toks = " ".join([I(J), I(I_), I(K)] + [F(x) for arr in (pm, pn, z_w, z_r, u, v) for x in arr.ravel()])
+        pend.append((drv.ask("cw.compute", toks), w, cs))
+
+
+# ----------------------------------------------------------------------------- Forcing on synthetic files
+def gen_forcing_case(rng):
+    nx = rng.randrange(7, 12); ny = rng.randrange(7, 11); N = rng.randrange(3, 7)
+    flat = rng.choice([None, None, 30.0, 75.0])
+    dt = rng.choice([300, 600, 900])
+    nfr = rng.randrange(4, 7)
+    rel = np.concatenate([[0], np.cumsum([rng.choice([1, 2, 3]) * dt for _ in range(nfr - 1)])]).astype(int)
+    mode = rng.choice(["on_frame", "on_later_frame", "between"])
+    if mode == "on_frame":
+        start_off = 0
+    elif mode == "on_later_frame":
+        start_off = int(rel[rng.randrange(1, nfr - 2)])          # frames before the start, at least two after it
+    else:
+        k = rng.randrange(0, nfr - 2)                            # start inside interval k: at least two frames after it
+        span = int(rel[k + 1] - rel[k])
+        if span > dt:
+            start_off = int(rel[k]) + dt * rng.randrange(1, span // dt)
+        else:
+            mode = "on_frame"; start_off = 0
+    ft = [int(x) - start_off for x in rel]
+    tmax = ft[-1] // dt
+    sched = []; t = 0 if rng.random() < 0.7 else rng.randrange(0, 3)
+    while t <= tmax and len(sched) < 30:
+        sched.append(int(t)); t += 1 if rng.random() < 0.75 else rng.randrange(2, 5)
+    sub = None
+    if rng.random() < 0.55:
+        i0 = rng.randrange(1, nx - 4); i1 = rng.randrange(i0 + 4, nx)
+        j0 = rng.randrange(1, ny - 4); j1 = rng.randrange(j0 + 4, ny)
+        sub = [i0, i1, j0, j1]
+    land = [(rng.randrange(ny), rng.randrange(nx)) for _ in range(rng.randrange(0, 4))]
+    return dict(nx=nx, ny=ny, N=N, flat=flat, dt=dt, frame_times=ft, mode=mode, sched=sched, subgrid=sub, land=land)
+
+
+def forcing_cases(ctx, G):
+    from . import romsfile
+    tmp = tempfile.mkdtemp(prefix="verif_c14_")
+    try:
+        for c in range(ctx.n(12, 300)):
+            case = gen_forcing_case(ctx.rng)
+            nx, ny, N, dt, ft, sched = case["nx"], case["ny"], case["N"], case["dt"], case["frame_times"], case["sched"]
+            mask = np.ones((ny, nx))
+            for (j, i) in case["land"]:
+                mask[j, i] = 0
+            path = os.path.join(tmp, "f%d.nc" % c)
+            t0 = np.datetime64("2015-09-07T01:00:00")
+            out = romsfile.write_roms(path, ctx.rng, nx=nx, ny=ny, N=N, frame_times=ft, t0=str(t0).replace("T", " "), fields=(),
+                                      mask=mask, flat=case["flat"])
+            conf = dict(gridforce=dict(input_file=path), start_time=t0, stop_time=t0 + np.timedelta64(int(ft[-1]), "s"), dt=dt, ibm_forcing=[])
+            if case["subgrid"] is not None:
+                conf["gridforce"]["subgrid"] = list(case["subgrid"])
+            cs = dict(case=case)
+            ctx.case(key=("forcing", repr(case)), nontrivial=True, sample=case if c < 1 else None)
+            ctx.branch("forcing.start." + case["mode"]); ctx.branch("forcing.subgrid" if case["subgrid"] else "forcing.whole_grid")
+            ctx.branch("forcing.flat" if case["flat"] is not None else "forcing.rough")
+            try:
+                g = G.Grid(conf); f = G.Forcing(conf, g)
+            except (Exception, SystemExit) as e:
+                ctx.oracle(False, "C14.forcing.raises", SITE_F, "Grid/Forcing construction raised %r" % (e,), cs); continue
+            i0, i1, j0, j1 = g.i0, g.i1, g.j0, g.j1
+            # the sub-grid's own arrays, cut from what was written to the file (independent of Grid/Forcing's slicing):
+            # rho cells j0..j1-1 x i0..i1-1; u-faces between two of those cells; currents zero on faces touching land
+            M = out["mask_rho"]
+            pm_s = out["pm"][j0:j1, i0:i1]; pn_s = out["pn"][j0:j1, i0:i1]
+            u_fr = (out["u"] * (M[:, :-1] * M[:, 1:])[None, None])[:, :, j0:j1, i0:i1 - 1]
+            v_fr = (out["v"] * (M[:-1, :] * M[1:, :])[None, None])[:, :, j0:j1 - 1, i0:i1]
+            z_w, z_r = g.z_w, g.z_r
+            flat = case["flat"] is not None
+            try:
+                for t in sched:
+                    f.update(t)
+                    W = f.W
+                    cst = dict(cs, step=t)
+                    shape_ok = W.shape == (N + 1, j1 - j0, i1 - i0)
+                    ctx.oracle(shape_ok and bool(np.all(np.isfinite(W))), "C14.forcing.shape_or_not_finite", SITE_F, "step %d: W shape %r" % (t, W.shape), cst)
+                    if not shape_ok:
+                        break
+                    lat = np.abs(W[:, 0, :]).max() + np.abs(W[:, -1, :]).max() + np.abs(W[:, :, 0]).max() + np.abs(W[:, :, -1]).max()
+                    ctx.oracle(lat == 0, "C14.forcing.lateral_not_zero", SITE_F, "step %d: lateral boundary values %r" % (t, lat), cst)
+                    # the served vertical velocity is the one derived from the served currents (on the sub-grid's interior
+                    # faces, with the sub-grid's own pm, pn).  By linearity the time-interpolated W equals w of the
+                    # time-interpolated currents; float64 file, so only rounding of the accumulated increments: 1e-9 relative.
+                    ref = call(G, pn_s, pm_s, np.asarray(f.U)[:, :, 1:-1], np.asarray(f.V)[:, 1:-1, :], z_w, z_r)
+                    sc = np.abs(ref).max() + 1e-30
+                    err = np.abs(W - ref).max()
+                    ctx.oracle(err <= 1e-9 * sc, "C14.forcing.W_not_w_of_currents", SITE_F,
+                               "step %d: Forcing.W differs by %r (scale %r) from compute_w of the served currents" % (t, err, sc), cst)
+                    if t * dt in ft:
+                        fr = ft.index(t * dt)
+                        ref = call(G, pn_s, pm_s, u_fr[fr], v_fr[fr], z_w, z_r)
+                        sc = np.abs(ref).max() + 1e-30
+                        err = np.abs(W - ref).max()
+                        ctx.oracle(err <= 1e-9 * sc, "C14.forcing.W_not_w_of_frame", SITE_F,
+                                   "step %d coincides with frame %d: Forcing.W differs by %r (scale %r) from compute_w of the file's currents on "
+                                   "the sub-grid" % (t, fr, err, sc), cst)
+                        ctx.branch("forcing.step_on_frame")
+                    else:
+                        ctx.branch("forcing.step_between_frames")
+                    if flat:
+                        sc = np.abs(W).max() + 1e-30
+                        ctx.oracle(np.abs(W[0]).max() <= 1e-12 * sc and np.abs(W[-1]).max() <= 1e-9 * sc, "C14.forcing.bed_surface_not_zero", SITE_F,
+                                   "step %d: bed %r surface %r (scale %r)" % (t, np.abs(W[0]).max(), np.abs(W[-1]).max(), sc), cst)
+                    # sampling at nodes: the vertical velocity served at a grid node on a w-level is W there (same sign)
+                    for _ in range(3):
+                        jn = ctx.rng.randrange(0, j1 - j0); in_ = ctx.rng.randrange(0, i1 - i0); kn = ctx.rng.randrange(0, N + 1)
+                        X = np.array([float(in_ + i0)]); Y = np.array([float(jn + j0)]); Z = np.array([-float(z_w[kn, jn, in_])])
+                        try:
+                            val = float(np.asarray(f.wvel(X, Y, Z))[0])
+                        except Exception as e:
+                            ctx.oracle(False, "C14.forcing.wvel_raises", SITE_W, "step %d: wvel raised %r" % (t, e), dict(cst, node=(kn, jn, in_)))
+                            continue
+                        ctx.oracle(val == float(W[kn, jn, in_]), "C14.forcing.wvel_not_W_at_node", SITE_W,
+                                   "step %d: wvel at node (k=%d,j=%d,i=%d) = %r, W there = %r" % (t, kn, jn, in_, val, float(W[kn, jn, in_])),
+                                   dict(cst, node=(kn, jn, in_), X=X[0], Y=Y[0], Z=Z[0]))
+                    ctx.branch("forcing.steps")
+            except Exception as e:
+                ctx.oracle(False, "C14.forcing.raises", SITE_F, "update / compute_w raised %r (schedule %r)" % (e, sched), cs)
+            try:
+                f.close()
+            except Exception:
+                pass
+    finally:
+        shutil.rmtree(tmp, ignore_errors=True)
+
+
 def run(ctx):
     G = importlib.import_module("ladim_plugins.chemicals.gridforce")
     drv = Driver()
@@ -49,80 +350,55 @@ def run(ctx):
         drv.available = False
     pend = []
     for c in range(ctx.n(60, 1000)):
-        flat = ctx.rng.random() < 0.6
-        J, I_, K, pm, pn, z_w, z_r = make_grid(ctx.rng, flat)
-        u, v = rand_uv(ctx.rng, K, J, I_)
-        cs = dict(J=J, I=I_, K=K, flat=flat, pm=pm, pn=pn, z_w=z_w, z_r=z_r, u=u, v=v)
-        ctx.case(key=(J, I_, K, flat, float(u.sum()), float(pm.sum())), nontrivial=True, sample=dict(J=J, I=I_, K=K, flat=flat) if c < 3 else None)
-        ctx.branch("flat" if flat else "rough"); ctx.size("K", K)
-        try:
-            w = call(G, pn, pm, u, v, z_w, z_r)
-        except Exception as e:
-            ctx.oracle(False, "C14.compute_w.raises", SITE, "raised %r" % (e,), dict(J=J, I=I_, K=K)); continue
-        scale = np.abs(w).max() + 1e-30
-        ctx.oracle(w.shape == (K + 1, J, I_), "C14.shape", SITE, "shape %r" % (w.shape,), dict(J=J, I=I_, K=K))
-        # lateral boundary
-        lat = np.abs(w[:, 0, :]).max() + np.abs(w[:, -1, :]).max() + np.abs(w[:, :, 0]).max() + np.abs(w[:, :, -1]).max()
-        ctx.oracle(lat == 0, "C14.lateral_not_zero", SITE, "lateral boundary values %r" % lat, cs)
-        # linearity
-        u2, v2 = rand_uv(ctx.rng, K, J, I_)
-        a, b = ctx.rng.uniform(-2, 2), ctx.rng.uniform(-2, 2)
-        w2 = call(G, pn, pm, u2, v2, z_w, z_r)
-        wc = call(G, pn, pm, a * u + b * u2, a * v + b * v2, z_w, z_r)
-        err = np.abs(wc - (a * w + b * w2)).max()
-        ctx.oracle(err <= 1e-9 * (np.abs(wc).max() + scale), "C14.not_linear", SITE, "linearity error %r (scale %r)" % (err, scale), cs)
-        if flat:
-            ctx.oracle(np.abs(w[0]).max() <= 1e-12 * scale and np.abs(w[-1]).max() <= 1e-9 * scale, "C14.bed_surface_not_zero", SITE,
-                       "bed %r surface %r (scale %r)" % (np.abs(w[0]).max(), np.abs(w[-1]).max(), scale), cs)
-            # flat-bottom identity with independently computed transports
-            Hz = z_w[1:] - z_w[:-1]
-            Hzu = 0.5 * (Hz[:, :, :-1] + Hz[:, :, 1:]); Hzv = 0.5 * (Hz[:, :-1, :] + Hz[:, 1:, :])
-            Fu = Hzu * u * 2 / (pn[:, :-1] + pn[:, 1:]); Fv = Hzv * v * 2 / (pm[:-1, :] + pm[1:, :])
-            D = (Fu[:, 1:-1, 1:] - Fu[:, 1:-1, :-1]) + (Fv[:, 1:, 1:-1] - Fv[:, :-1, 1:-1])      # net outflow per layer, interior cells
-            S = np.concatenate([np.zeros((1,) + D.shape[1:]), np.cumsum(D, axis=0)])
-            zz = z_w[:, 1:-1, 1:-1]
-            want = (pm * pn)[1:-1, 1:-1] * (S - (zz - zz[0]) / (zz[-1] - zz[0]) * S[-1])
-            err = np.abs(w[:, 1:-1, 1:-1] - want).max()
-            ctx.oracle(err <= 1e-9 * scale, "C14.flat_identity", SITE, "identity error %r (scale %r)" % (err, scale), cs)
-            # non-divergent transports: stream function psi at corners -> Fu = d psi/dy, Fv = -d psi/dx
-            psi = np.array([[[ctx.rng.uniform(-1, 1) for _ in range(I_ + 1)] for _ in range(J + 1)] for _ in range(K)])
-            Fu_nd = psi[:, 1:, 1:-1] - psi[:, :-1, 1:-1]          # faces between (j,i),(j,i+1): shape K,J,I-1
-            Fv_nd = -(psi[:, 1:-1, 1:] - psi[:, 1:-1, :-1])       # shape K,J-1,I
-            und = Fu_nd / (Hzu * 2 / (pn[:, :-1] + pn[:, 1:])); vnd = Fv_nd / (Hzv * 2 / (pm[:-1, :] + pm[1:, :]))
-            wnd = call(G, pn, pm, und, vnd, z_w, z_r)
-            sc = (np.abs(Fu_nd).max() + np.abs(Fv_nd).max()) * (pm * pn).max()
-            ctx.oracle(np.abs(wnd).max() <= 1e-9 * sc, "C14.nondivergent_not_zero", SITE,
-                       "|w| = %r for a non-divergent transport field (transport scale %r)" % (np.abs(wnd).max(), sc), cs)
-            ctx.branch("nondivergent")
-            # surface convergence: outflow in the lower half, equal inflow in the upper half of one interior column
-            uc = np.zeros_like(u); vc = np.zeros_like(v)
-            jj, ii = J // 2, I_ // 2
-            half = K // 2
-            for k in range(K):
-                sgn = 1.0 if k < half else -1.0 * half / (K - half)
-                # east face of cell (jj,ii) carries the outflow / inflow
-                uc[k, jj, ii] = sgn / (Hzu[k, jj, ii] * 2 / (pn[jj, ii] + pn[jj, ii + 1]))
-            wcv = call(G, pn, pm, uc, vc, z_w, z_r)
-            ctx.oracle(np.all(wcv[1:K, jj, ii] > 0), "C14.surface_convergence_not_downward", SITE,
-                       "w in the column with divergence below / convergence above: %r" % wcv[:, jj, ii].tolist(), cs)
-            ctx.branch("surface_convergence")
-        if drv.available:
-            toks = " ".join([I(J), I(I_), I(K)] + [F(x) for arr in (pm, pn, z_w, z_r, u, v) for x in arr.ravel()])
-            pend.append((drv.ask("cw.compute", toks), w, cs))
+        dims = None
+        if ctx.rng.random() < 0.125:
+            dims = (ctx.rng.randrange(8, 13), ctx.rng.randrange(8, 13), ctx.rng.randrange(7, 13))
+        check_case(ctx, G, drv, pend, c, dims)
+    # a few larger grids, implementation-side oracles only (the cell-by-cell model evaluation is slow there)
+    for c in range(ctx.n(1, 20)):
+        dims = (ctx.rng.randrange(14, 25), ctx.rng.randrange(14, 25), ctx.rng.randrange(13, 36))
+        check_case(ctx, G, drv, pend, 1000 + c, dims, use_driver=False, np_fields=True)
+    # Forcing on synthetic files
+    forcing_cases(ctx, G)
     # the method on the shipped forcing file
     try:
         import netCDF4
-        chem_dir = G.__file__.rsplit("/", 1)[0]
-        conf = dict(gridforce=dict(input_file=chem_dir + "/forcing.nc"), start_time=np.datetime64("2015-09-07T01:00:00"),
-                    stop_time=np.datetime64("2015-09-07T01:05:00"), dt=60, ibm_forcing=[])
-        grid = G.Grid(conf); forc = G.Forcing(conf, grid)
-        forc._remaining_initialization()
-        W = forc.W
-        ctx.case(key=("shipped",), nontrivial=True); ctx.branch("shipped_forcing")
-        ctx.oracle(bool(np.all(np.isfinite(W))) and np.abs(W[:, 0, :]).max() == 0, "C14.shipped.not_finite", SITE, "W on the shipped file", dict(file="forcing.nc"))
-        forc.close()
-    except Exception as e:
-        ctx.note("shipped forcing file not usable for Forcing.compute_w: %r" % (e,))
+        have_nc = True
+    except ImportError as e:
+        have_nc = False
+        ctx.note("netCDF4 missing, shipped forcing file not used: %r" % (e,))
+    if have_nc:
+        try:
+            chem_dir = G.__file__.rsplit("/", 1)[0]
+            conf = dict(gridforce=dict(input_file=chem_dir + "/forcing.nc"), start_time=np.datetime64("2015-09-07T01:00:00"),
+                        stop_time=np.datetime64("2015-09-07T01:05:00"), dt=60, ibm_forcing=[])
+            grid = G.Grid(conf); forc = G.Forcing(conf, grid)
+            forc._remaining_initialization()
+            W = forc.W
+            ctx.case(key=("shipped",), nontrivial=True); ctx.branch("shipped_forcing")
+            ctx.oracle(bool(np.all(np.isfinite(W))) and np.abs(W[:, 0, :]).max() == 0, "C14.shipped.not_finite", SITE, "W on the shipped file", dict(file="forcing.nc"))
+            forc.close()
+            # the same file through update(): steps inside the first interval, on the later frames (steps 60, 120) and after one
+            conf["stop_time"] = np.datetime64("2015-09-07T03:00:00")
+            grid = G.Grid(conf); forc = G.Forcing(conf, grid)
+            pm_s = 1.0 / grid.dx; pn_s = 1.0 / grid.dy
+            for t in (0, 1, 2, 3, 4, 60, 61, 120):
+                forc.update(t)
+                W = forc.W
+                ctx.case(key=("shipped", t), nontrivial=True); ctx.branch("shipped_forcing.update")
+                lat = np.abs(W[:, 0, :]).max() + np.abs(W[:, -1, :]).max() + np.abs(W[:, :, 0]).max() + np.abs(W[:, :, -1]).max()
+                ctx.oracle(bool(np.all(np.isfinite(W))) and lat == 0, "C14.shipped.lateral_or_not_finite", SITE_F,
+                           "step %d: lateral boundary values %r" % (t, lat), dict(file="forcing.nc", step=t))
+                # float32 currents: U += dU rounds to float32 at every step (6e-8 relative each), W accumulates in float64;
+                # the divergence amplifies that by the ratio current/divergence: 1e-5 relative to the W scale
+                ref = call(G, pn_s, pm_s, np.asarray(forc.U)[:, :, 1:-1], np.asarray(forc.V)[:, 1:-1, :], grid.z_w, grid.z_r)
+                sc = np.abs(ref).max() + 1e-30
+                err = np.abs(W - ref).max()
+                ctx.oracle(err <= 1e-5 * sc, "C14.shipped.W_not_w_of_currents", SITE_F,
+                           "step %d: Forcing.W differs by %r (scale %r) from compute_w of the served currents" % (t, err, sc), dict(file="forcing.nc", step=t))
+            forc.close()
+        except (Exception, SystemExit) as e:
+            ctx.oracle(False, "C14.shipped.raises", SITE_F, "Grid / Forcing on the shipped forcing file raised %r" % (e,), dict(file="forcing.nc"))
     if drv.available:
         rep = drv.run()
         for j, w, cs in pend:
